@@ -1,14 +1,14 @@
 SPECIFICATION Spec
 CONSTANTS
-  Keys = {1, 2}
-  Writers = {1}
-  Depth0 = 2
-  MaxArr = 4
+  Keys = {1}
+  Writers = {1, 2}
+  Depth0 = 0
+  MaxArr = 3
   MaxSteps = 6
-  Forms = {"take", "read", "read_inst"}
+  Forms = {"take", "read"}
   Kinds = {"V", "D"}
   Retransmit = FALSE
-  GenK = 200
+  GenK = 10
 CONSTRAINT Bound
 VIEW View
 INVARIANT SCInv_NoViolation
